@@ -324,7 +324,7 @@ package gnet
 //@ func (el *eventloop) close(c *conn, err error) (rerr error)
 //@   requires elwf(el) && c != nil && c.loop == el
 //@   requires c.opened && reg(el.connections, c.fd) != nil ==> CIx(c)
-//@   modifies-all-except eventloop, engine, Options, netpoll.Poller, listener, map[int]*listener, ghost:kdata, ghost:kpos, ghost:nopen if c.opened && reg(el.connections, c.fd) != nil
+//@   modifies-all-except eventloop, engine, Options, netpoll.Poller, listener, asyncWriteHook, asyncWritevHook, map[int]*listener, ghost:kdata, ghost:kpos, ghost:nopen, ghost:nacb if c.opened && reg(el.connections, c.fd) != nil
 //@   ensures c.loop == el && c.fd == old(c.fd) && elwf(el)
 //@   ensures old(c.opened && reg(el.connections, c.fd) != nil) ==> !c.opened && c.phase == 2 && nclose[c] == 1 && owner[c.fd] == nil && reg(el.connections, c.fd) != c && CZ(c)
 //@   ensures !old(c.opened && reg(el.connections, c.fd) != nil) ==> rerr == nil
@@ -339,7 +339,7 @@ package gnet
 //@ func (el *eventloop) handleAction(c *conn, action Action) (err error)
 //@   requires elwf(el) && c != nil && c.loop == el
 //@   requires c.opened && reg(el.connections, c.fd) != nil ==> CI(c)
-//@   modifies-all-except eventloop, engine, Options, netpoll.Poller, listener, map[int]*listener, ghost:kdata, ghost:kpos, ghost:nopen if action == Close && c.opened && reg(el.connections, c.fd) != nil
+//@   modifies-all-except eventloop, engine, Options, netpoll.Poller, listener, asyncWriteHook, asyncWritevHook, map[int]*listener, ghost:kdata, ghost:kpos, ghost:nopen, ghost:nacb if action == Close && c.opened && reg(el.connections, c.fd) != nil
 //@   ensures c.loop == el && c.fd == old(c.fd) && elwf(el)
 //@   ensures action == Shutdown ==> err == errorx.ErrEngineShutdown
 //@   ensures action == Close && old(c.opened && reg(el.connections, c.fd) != nil) ==> !c.opened && c.phase == 2 && nclose[c] == 1 && owner[c.fd] == nil && reg(el.connections, c.fd) != c && CZ(c)
@@ -353,7 +353,7 @@ package gnet
 //@ func (el *eventloop) wake(c *conn) (err error)
 //@   requires elwf(el) && c != nil && c.loop == el
 //@   requires c.opened && reg(el.connections, c.fd) != nil ==> CI(c)
-//@   modifies-all-except eventloop, engine, Options, netpoll.Poller, listener, map[int]*listener, ghost:kdata, ghost:kpos, ghost:nopen if c.opened && reg(el.connections, c.fd) != nil
+//@   modifies-all-except eventloop, engine, Options, netpoll.Poller, listener, asyncWriteHook, asyncWritevHook, map[int]*listener, ghost:kdata, ghost:kpos, ghost:nopen, ghost:nacb if c.opened && reg(el.connections, c.fd) != nil
 //@   ensures c.loop == el && c.fd == old(c.fd) && elwf(el)
 //@   ensures !old(c.opened && reg(el.connections, c.fd) != nil) ==> err == nil
 //@   ensures c.opened ==> CI(c) || !old(c.opened && reg(el.connections, c.fd) != nil)
@@ -365,7 +365,7 @@ package gnet
 //@   requires elwf(el) && c != nil && c.loop == el
 //@   requires (c.opened ==> CI(c)) && (!c.opened ==> CZ(c))
 //@   arith unchecked sent byte counts stay far below 2^63
-//@   modifies-all-except eventloop, engine, Options, netpoll.Poller, listener, map[int]*listener, ghost:kdata, ghost:kpos, ghost:nopen if c.opened && ocnt(c) > 0
+//@   modifies-all-except eventloop, engine, Options, netpoll.Poller, listener, asyncWriteHook, asyncWritevHook, map[int]*listener, ghost:kdata, ghost:kpos, ghost:nopen, ghost:nacb if c.opened && ocnt(c) > 0
 //@   ensures c.loop == el && c.fd == old(c.fd) && elwf(el)
 //@   ensures c.opened ==> old(c.opened) && CI(c) && acc(c) == old(acc(c)) && c.cons == old(c.cons) && spos[c.fd] >= old(spos[c.fd]) && len(c.buffer) == old(len(c.buffer)) && c.unflushed == old(c.unflushed)
 //@   ensures c.opened ==> forall i :: 0 <= i && i < acc(c) ==> aat(c, i) == old(aat(c, i))
@@ -389,7 +389,7 @@ package gnet
 //@   requires (c.opened ==> CI(c)) && (!c.opened ==> CZ(c))
 //@   requires c.opened ==> bufsepw(c, data)
 //@   arith unchecked sent byte counts stay far below 2^63
-//@   modifies-all-except eventloop, engine, Options, netpoll.Poller, listener, map[int]*listener, ghost:kdata, ghost:kpos, ghost:nopen
+//@   modifies-all-except eventloop, engine, Options, netpoll.Poller, listener, asyncWriteHook, asyncWritevHook, map[int]*listener, ghost:kdata, ghost:kpos, ghost:nopen, ghost:nacb
 //@   ensures c.loop == old(c.loop) && c.fd == old(c.fd) && elwf(c.loop)
 //@   ensures c.opened ==> old(c.opened) && CI(c) && c.cons == old(c.cons) && acc(c) == old(acc(c)) + len(data) && n == len(data)
 //@   ensures c.opened ==> forall i :: 0 <= i && i < old(acc(c)) ==> aat(c, i) == old(aat(c, i))
@@ -434,7 +434,7 @@ package gnet
 //@ func (el *eventloop) open(c *conn) (err error)
 //@   requires elwf(el) && c != nil && c.loop == el && !c.isDatagram
 //@   requires CIcore(c) && !c.opened && c.phase == 0 && polled[c.fd] && reg(el.connections, c.fd) == c && nopen[c] == 0 && nclose[c] == 0
-//@   modifies-all-except eventloop, engine, Options, netpoll.Poller, listener, map[int]*listener, ghost:kdata, ghost:kpos, ghost:nopen
+//@   modifies-all-except eventloop, engine, Options, netpoll.Poller, listener, asyncWriteHook, asyncWritevHook, map[int]*listener, ghost:kdata, ghost:kpos, ghost:nopen, ghost:nacb
 //@   modifies nopen[c]
 //@   ensures c.loop == el && c.fd == old(c.fd) && elwf(el) && nopen[c] == 1
 //@   ensures c.opened ==> CIx(c) && (err == nil ==> CI(c))
@@ -446,7 +446,7 @@ package gnet
 //@   requires elwf(el) && c != nil && c.loop == el && !c.isDatagram
 //@   requires CIcore(c) && !c.opened && c.phase == 0 && !polled[c.fd] && reg(el.connections, c.fd) == nil && nopen[c] == 0 && nclose[c] == 0 &&
 //@        el.connections.connCount < 2147483647 && icnt(c) == 0 && ocnt(c) == 0 && c.outboundBuffer.listBuffer.size == 0
-//@   modifies-all-except eventloop, engine, Options, netpoll.Poller, listener, map[int]*listener, ghost:kdata, ghost:kpos, ghost:nopen
+//@   modifies-all-except eventloop, engine, Options, netpoll.Poller, listener, asyncWriteHook, asyncWritevHook, map[int]*listener, ghost:kdata, ghost:kpos, ghost:nopen, ghost:nacb
 //@   modifies nopen[c], el.connections.connCount, *gfd.monoSeq, mem(c.gfd)
 //@   ensures c.loop == el && c.fd == old(c.fd) && elwf(el)
 //@   ensures nopen[c] == 1 || (nopen[c] == 0 && !c.opened && owner[c.fd] == nil && err != nil && reg(el.connections, c.fd) != c)
@@ -461,7 +461,7 @@ package gnet
 //@   requires c != nil && c.loop != nil && elwf(c.loop)
 //@   requires (c.opened ==> CI(c)) && (!c.opened ==> CZ(c))
 //@   arith unchecked byte counts stay far below 2^63
-//@   modifies-all-except eventloop, engine, Options, netpoll.Poller, listener, map[int]*listener, ghost:kdata, ghost:kpos, ghost:nopen
+//@   modifies-all-except eventloop, engine, Options, netpoll.Poller, listener, asyncWriteHook, asyncWritevHook, map[int]*listener, ghost:kdata, ghost:kpos, ghost:nopen, ghost:nacb
 //@   ensures c.loop == old(c.loop) && c.fd == old(c.fd) && elwf(c.loop)
 //@   ensures c.opened ==> old(c.opened) && CI(c) && c.cons == old(c.cons) && acc(c) >= old(acc(c))
 //@   ensures c.opened ==> forall i :: 0 <= i && i < old(acc(c)) ==> aat(c, i) == old(aat(c, i))
@@ -494,15 +494,35 @@ package gnet
 //@   ensures c.isDatagram ==> err == errorx.ErrUnsupportedOp
 //@   ensures !c.isDatagram ==> trigprio == 0
 //
-// asyncWrite / asyncWritev (the loop side of the above) are conn.write / conn.writev guarded by c.opened; their user
-// callback is a function value, which gvc does not model: not under contract.
+// asyncWrite / asyncWritev (the loop side of the above): conn.write / conn.writev guarded by c.opened; a request that
+// reaches a connection that is no longer open fails with net.ErrClosed and touches no descriptor; the user's completion
+// callback (functype AsyncCallback, contracts/trusted/handler.spec) is then called once with that result.
+//@ pure aswhook(a any) *asyncWriteHook := ref(a)
+//@ pure aswvhook(a any) *asyncWritevHook := ref(a)
+//@ func (c *conn) asyncWrite(a any) (err error)
+//@   requires c != nil && c.loop != nil && elwf(c.loop) && !c.isDatagram && typeis(a, "*asyncWriteHook") && ref(a) != nil
+//@   requires (c.opened ==> CI(c) && bufsepw(c, aswhook(a).data)) && (!c.opened ==> CZ(c))
+//@   modifies-all-except eventloop, engine, Options, netpoll.Poller, listener, asyncWriteHook, asyncWritevHook, map[int]*listener, ghost:kdata, ghost:kpos, ghost:nopen, ghost:nacb
+//@   ensures c.loop == old(c.loop) && c.fd == old(c.fd) && elwf(c.loop)
+//@   ensures (c.opened ==> CI(c)) && (!c.opened ==> CZ(c))
+//@   ensures !old(c.opened) ==> err == net.ErrClosed
+//@   ensures nacb == old(nacb) + (old(aswhook(a).callback) != nil ? 1 : 0)
+//
+//@ func (c *conn) asyncWritev(a any) (err error)
+//@   requires c != nil && c.loop != nil && elwf(c.loop) && !c.isDatagram && typeis(a, "*asyncWritevHook") && ref(a) != nil
+//@   requires (c.opened ==> CI(c)) && (!c.opened ==> CZ(c))
+//@   modifies-all-except eventloop, engine, Options, netpoll.Poller, listener, asyncWriteHook, asyncWritevHook, map[int]*listener, ghost:kdata, ghost:kpos, ghost:nopen, ghost:nacb
+//@   ensures c.loop == old(c.loop) && c.fd == old(c.fd) && elwf(c.loop)
+//@   ensures (c.opened ==> CI(c)) && (!c.opened ==> CZ(c))
+//@   ensures !old(c.opened) ==> err == net.ErrClosed
+//@   ensures nacb == old(nacb) + (old(aswvhook(a).callback) != nil ? 1 : 0)
 //
 // processIO: one epoll event of a stream connection: write before read, EPOLLRDHUP last; works on stale (closed) connections.
 //@ func (c *conn) processIO(fd int, ev netpoll.IOEvent, flags netpoll.IOFlags) (err error)
 //@   requires c != nil && c.loop != nil && elwf(c.loop) && !c.isDatagram
 //@   requires (c.opened ==> CI(c) && len(c.buffer) == 0) && (!c.opened ==> CZ(c))
 //@   arith unchecked event masks are small constants
-//@   modifies-all-except eventloop, engine, Options, netpoll.Poller, listener, map[int]*listener, ghost:kdata, ghost:nopen
+//@   modifies-all-except eventloop, engine, Options, netpoll.Poller, listener, asyncWriteHook, asyncWritevHook, map[int]*listener, ghost:kdata, ghost:nopen, ghost:nacb
 //@   ensures c.loop == old(c.loop) && c.fd == old(c.fd) && elwf(c.loop)
 //@   ensures c.opened ==> old(c.opened) && CI(c) && (err == nil ==> len(c.buffer) == 0)
 //@   ensures !c.opened ==> CZ(c)
@@ -514,7 +534,7 @@ package gnet
 //@ func (c *conn) Flush() (err error)
 //@   requires c != nil && c.loop != nil && elwf(c.loop)
 //@   requires (c.opened ==> CI(c)) && (!c.opened ==> CZ(c))
-//@   modifies-all-except eventloop, engine, Options, netpoll.Poller, listener, map[int]*listener, ghost:kdata, ghost:kpos, ghost:nopen
+//@   modifies-all-except eventloop, engine, Options, netpoll.Poller, listener, asyncWriteHook, asyncWritevHook, map[int]*listener, ghost:kdata, ghost:kpos, ghost:nopen, ghost:nacb
 //@   ghostdef c.unflushed := false
 //@   ensures c.loop == old(c.loop) && c.fd == old(c.fd) && elwf(c.loop)
 //@   ensures c.opened ==> old(c.opened) && (err == nil ==> CI(c)) && acc(c) == old(acc(c)) && c.cons == old(c.cons) && len(c.buffer) == old(len(c.buffer))
@@ -545,7 +565,7 @@ package gnet
 //@   requires elwf(el) && c != nil && c.loop == el
 //@   requires (c.opened ==> CI(c) && len(c.buffer) == 0) && (!c.opened ==> CZ(c))
 //@   arith unchecked received byte counts stay far below 2^63
-//@   modifies-all-except eventloop, engine, Options, netpoll.Poller, listener, map[int]*listener, ghost:kdata, ghost:nopen if c.opened
+//@   modifies-all-except eventloop, engine, Options, netpoll.Poller, listener, asyncWriteHook, asyncWritevHook, map[int]*listener, ghost:kdata, ghost:nopen, ghost:nacb if c.opened
 //@   ensures c.loop == el && c.fd == old(c.fd) && elwf(el)
 //@   ensures c.opened ==> old(c.opened) && CI(c) && (err == nil ==> len(c.buffer) == 0)
 //@   ensures !c.opened ==> CZ(c)
@@ -666,7 +686,7 @@ package gnet
 //@   requires has(el.listeners, fd) ==> el.listeners[fd] != nil && ((typeis(el.listeners[fd].addr, "*net.TCPAddr") || typeis(el.listeners[fd].addr, "*net.UDPAddr")) ==> ref(el.listeners[fd].addr) != nil)
 //@   requires !has(el.listeners, fd) ==> reg(el.connections, fd) != nil && reg(el.connections, fd).isDatagram && reg(el.connections, fd).remote == nil &&
 //@        reg(el.connections, fd).fd == fd && reg(el.connections, fd).loop == el && addrok(reg(el.connections, fd)) && reg(el.connections, fd).inboundBuffer.rb == nil && len(reg(el.connections, fd).cache) == 0
-//@   modifies-all-except eventloop, engine, Options, netpoll.Poller, listener, map[int]*listener, ghost:kdata, ghost:kpos, ghost:nopen
+//@   modifies-all-except eventloop, engine, Options, netpoll.Poller, listener, asyncWriteHook, asyncWritevHook, map[int]*listener, ghost:kdata, ghost:kpos, ghost:nopen, ghost:nacb
 //@   modifies *gfd.monoSeq
 //@   ensures elwf(el)
 //@   ensures nrcv[fd] == old(nrcv[fd]) || nrcv[fd] == old(nrcv[fd]) + 1
@@ -712,7 +732,7 @@ package gnet
 //@   requires (typeis(el.listeners[fd].addr, "*net.TCPAddr") || typeis(el.listeners[fd].addr, "*net.UDPAddr")) ==> ref(el.listeners[fd].addr) != nil
 //@   requires el.engine.opts.WriteBufferCap > 0 && el.connections.connCount < 2147483647 && (forall f :: owner[f] == nil ==> reg(el.connections, f) == nil)
 //@   requires el.engine.opts.Logger != nil
-//@   modifies-all-except eventloop, engine, Options, netpoll.Poller, listener, map[int]*listener, ghost:kdata
+//@   modifies-all-except eventloop, engine, Options, netpoll.Poller, listener, asyncWriteHook, asyncWritevHook, map[int]*listener, ghost:kdata, ghost:nacb
 //@   modifies el.connections.connCount, *gfd.monoSeq
 //@   assert after newStreamConn #1: result.fd == accfd && owner[accfd] != nil && ref(result.remote) == accsa && socket.tcpof(result.remoteAddr, result.remote) && result.localAddr == el.listeners[fd].addr && result.loop == el
 //@   ensures elwf(el)
@@ -733,7 +753,7 @@ package gnet
 //@   requires owner[fd] != nil && has(el.listeners, fd) && el.listeners[fd] != nil
 //@   requires (typeis(el.listeners[fd].addr, "*net.TCPAddr") || typeis(el.listeners[fd].addr, "*net.UDPAddr")) ==> ref(el.listeners[fd].addr) != nil
 //@   requires forall l *eventloop :: l != nil ==> l.listeners == el.listeners
-//@   modifies-all-except eventloop, engine, Options, netpoll.Poller, listener, map[int]*listener, ghost:kdata, ghost:nopen, ghost:nclose
+//@   modifies-all-except eventloop, engine, Options, netpoll.Poller, listener, asyncWriteHook, asyncWritevHook, map[int]*listener, ghost:kdata, ghost:nopen, ghost:nclose, ghost:nacb
 //@   assert after newStreamConn #1: result.fd == accfd && owner[accfd] != nil && ref(result.remote) == accsa && socket.tcpof(result.remoteAddr, result.remote) && result.localAddr == el.listeners[fd].addr && result.loop == lbnext
 //@   assert after (*Poller).Trigger #1: trigprio == 0 && trigpoller == asel(lbnext).poller
 //@   assert after (*conn).release #1: owner[accfd] == nil
